@@ -1328,6 +1328,7 @@ type wireWorld struct {
 	calls map[string]*callWorld
 	child bool // running inside inChild
 	posts postWorld
+	pg    *pgWorld // paged lists: the current server + session (r.pg.*)
 	// observations of ops that run in a child process, made ahead of time (prefetch)
 	childCache map[string]string
 }
@@ -1348,6 +1349,10 @@ func (w *wireWorld) close() {
 	}
 	for _, c := range w.calls {
 		c.close()
+	}
+	if w.pg != nil {
+		w.pg.close()
+		w.pg = nil
 	}
 	w.zero, w.empty, w.calls = nil, nil, nil
 }
@@ -2197,6 +2202,26 @@ func TestVerifWireMcp(t *testing.T) {
 				step("r.rt "+name+" "+j1.tok(), "type:"+name)
 			}
 		}
+		// event streams as a foreign peer frames them: one message event in every combination of
+		// line end (LF, CRLF, alternating) x framing feature; then arbitrary lines in both line ends
+		step = newCase("sse-foreign")
+		for _, es := range fixedFStreams() {
+			step("sse.frn "+fstreamTok(es), fstreamTags(es, true)...)
+		}
+		for _, ls := range []string{"x" + hxs("data: 1") + " c x c", "x" + hxs("data: 1") + " c x l", "x c", "x c x c x" + hxs("data: 1") + " l x c",
+			"x" + hxs("data: 1") + " c e x" + hxs("data: 2"), "x" + hxs("nocolon") + " c", "x" + hxs("data: 1\r\r") + " c x" + hxs("\r") + " l"} {
+			step("sse.lines "+ls, "sse:lines", "eol:fixed")
+		}
+		// list results page by page: registries below, at and above the page size; a cursor at, between
+		// and beyond every key; issued cursors followed to the end; stale cursors after removals
+		for _, m := range pgMethods {
+			for _, ps := range []int{1, 2, 3} {
+				for _, n := range uniqInts([]int{0, 1, ps, ps + 1, 2 * ps, 2*ps + 1, 3*ps + 2}) {
+					step = newCase(fmt.Sprintf("pages-%s-%d-%d", strings.ReplaceAll(m, "/", "."), ps, n))
+					(&pgGen{r: r, step: step}).sweep(m, ps, n)
+				}
+			}
+		}
 		// frames that carry no message, through every reader of peer data, in every layout
 		var liveOps []string
 		var liveOpTags [][]string
@@ -2265,6 +2290,14 @@ func TestVerifWireMcp(t *testing.T) {
 						live = append(live, fmt.Sprintf("live.cli %s %s L%d", kind, f.tok(), lay))
 						liveTags = append(liveTags, []string{"live:cli", "kind:" + kind, fmt.Sprintf("layout:%d", lay)})
 					}
+				}
+			}
+			// the streamable client again, its ping answered in an event stream framed as a foreign server
+			// or a proxy may frame it (CRLF, comments, id/retry, no pad, field order, data over several lines)
+			for _, how := range sseFramings {
+				for _, f := range []jv{okResp, jArr(), jNull(), jObj()} {
+					live = append(live, fmt.Sprintf("live.cli sse.%s %s L0", how, f.tok()))
+					liveTags = append(liveTags, []string{"live:cli", "kind:sse-foreign", "framing:" + how})
 				}
 			}
 			// some generated frames as well
@@ -2430,6 +2463,15 @@ func TestVerifWireMcp(t *testing.T) {
 				}
 				step("sse.rt "+strings.Join(evs, " "), tag)
 				step("sse.scan x"+hx(genSSEBytes(r)), "sse:bytes")
+				clean = r.Intn(5) > 0
+				fs, ftags := genFStream(r, clean)
+				step("sse.frn "+fstreamTok(fs), ftags...)
+				ls, ltags := genSSELines(r)
+				step("sse.lines "+ls, ltags...)
+			}
+			// list results page by page on a real session
+			if c%verifN(4, 10) == 0 {
+				(&pgGen{r: r, step: step}).random()
 			}
 			// ioConn
 			iog.run(step)
@@ -2509,6 +2551,18 @@ func TestVerifWireMcp(t *testing.T) {
 			step(op, liveOpTags[i]...)
 		}
 	})
+}
+
+func uniqInts(l []int) []int {
+	seen := map[int]bool{}
+	var out []int
+	for _, x := range l {
+		if !seen[x] {
+			seen[x] = true
+			out = append(out, x)
+		}
+	}
+	return out
 }
 
 func TestVerifWireBatch(t *testing.T) {
